@@ -53,4 +53,42 @@ def allUnit (alts : List Alt) : Bool := alts.all (fun a => a.isConst || a.isNull
 def unionRoot (fname : Str → Str) (vname : J → Str) (alts : List Alt) : URoot :=
   if allUnit alts then .plain ((constsOf alts).map fun c => ⟨[], c, []⟩) else .untagged (unionTy fname vname alts)
 
+/-! ### `anyOf` with a free-form string next to string constants: the Known/Other pair (converter/relaxed_enum.rs)
+
+`try_build_relaxed_enum` is asked first for every `anyOf`: when some alternative is a free-form string schema (type string, no
+`enum`, no `const` — a `format` does not matter) and the alternatives carry at least one enum / const value, the union becomes
+`enum T { Known(TKnown), Other(String) }` (untagged) where `TKnown` is the value enum over ALL collected values (in order,
+duplicates removed).  Alternatives of any other kind are not looked at. -/
+
+def S.isFreeformString : S → Bool
+  | .str | .strNum _ | .strFloat _ | .strBytes => true
+  | _ => false
+
+def Alt.isFreeform : Alt → Bool
+  | .sch s => s.isFreeformString
+  | _ => false
+
+def dedupJ : List J → List J → List J
+  | [], _ => []
+  | v :: r, seen => if seen.any (fun w => w.scalarEq v) then dedupJ r seen else v :: dedupJ r (v :: seen)
+
+/-- `extract_enum_entries` over the alternatives -/
+def entriesOf : List Alt → List J
+  | [] => []
+  | .const v :: r => .str v :: entriesOf r
+  | .sch (.enum vals) :: r => vals ++ entriesOf r
+  | .sch (.single v) :: r => .str v :: entriesOf r
+  | _ :: r => entriesOf r
+
+def relaxedPattern (alts : List Alt) : Bool := alts.any Alt.isFreeform && !(entriesOf alts).isEmpty
+
+/-- the emitted root type of an `anyOf` -/
+def anyOfRoot (fname : Str → Str) (vname : J → Str) (alts : List Alt) : URoot :=
+  if relaxedPattern alts then
+    .untagged [.newtype (typeOf fname vname (.enum (dedupJ (entriesOf alts) []))), .newtype .string]
+  else unionRoot fname vname alts
+
+def rootOf (fname : Str → Str) (vname : J → Str) (oneOf : Bool) (alts : List Alt) : URoot :=
+  if oneOf then unionRoot fname vname alts else anyOfRoot fname vname alts
+
 end Oas3.Codec
